@@ -963,6 +963,31 @@ func (w *c14World) event(idx int, to string) bool {
 	}
 	tasks := chg.Tasks()
 	sort.Slice(tasks, func(i, j int) bool { return c14TaskNum(tasks[i]) < c14TaskNum(tasks[j]) })
+	// Creation order, except that tasks of the same kind swap places so that their snaps come in name order: some
+	// request functions create the per-snap tasks in map order (applyAutoAliasesDelta), and an implementation that
+	// looks at task statuses must meet the same half-done change every time the path is replayed.
+	{
+		byKind := map[string][]int{}
+		for i, t := range tasks {
+			byKind[t.Kind()] = append(byKind[t.Kind()], i)
+		}
+		canon := append([]*state.Task(nil), tasks...)
+		for _, pos := range byKind {
+			if len(pos) < 2 {
+				continue
+			}
+			same := make([]*state.Task, 0, len(pos))
+			for _, i := range pos {
+				same = append(same, tasks[i])
+			}
+			snapOf := func(t *state.Task) string { return strings.Join(c14OwnAffected(w.st, t), ",") }
+			sort.SliceStable(same, func(i, j int) bool { return snapOf(same[i]) < snapOf(same[j]) })
+			for k, i := range pos {
+				canon[i] = same[k]
+			}
+		}
+		tasks = canon
+	}
 	set := func(first, second, rest state.Status) {
 		for i, t := range tasks {
 			s := rest
